@@ -9,7 +9,7 @@
 (* so that every event is judged); the driver requires that the number of  *)
 (* distinct states equals 1 + K + N, i.e. that every event was evaluated.  *)
 (***************************************************************************)
-EXTENDS TomlPrint, DepthDef, Json, IOUtils
+EXTENDS TomlPrint, DepthDef, Containers, Json, IOUtils
 
 Ev == ndJsonDeserialize(IOEnv.TRACE)
 N == Len(Ev)
@@ -360,6 +360,33 @@ CheckDepth(i) ==
           /\ IF e.depth <= Bound(e.L) + 2 THEN TRUE ELSE Report(i, "depth-unbounded", [pat |-> p, depth |-> e.depth, bound |-> Bound(e.L)]) /\ FALSE
      /\ IF e.ops_failed = <<>> THEN TRUE ELSE Report(i, "depth-op-failed", [pat |-> p, ops |-> e.ops_failed]) /\ FALSE
 
+\* ---- C16: call histories on the real containers, validated against the Containers step relations ----
+\* (set simulation: the specification states compatible with everything observed so far)
+SeqToSet(q) == {q[x] : x \in 1..Len(q)}
+FixOp(o) == [op |-> o.op, k |-> o.k, v |-> o.v, k2 |-> o.k2, ks |-> SeqToSet(o.ks), i |-> o.i, vs |-> SeqToSet(o.vs), v2 |-> o.v2]
+HKeys == {"a", "b", "c"}
+IsSeqK(kind) == kind \in {"array", "aot"}
+StepOutcomes(kind, s, o) ==
+  IF IsSeqK(kind) THEN (IF SeqEnabled(s, o) THEN SeqApply(s, o) ELSE {}) ELSE MapApply(kind, s, o)
+ObsOf(kind, s) == IF IsSeqK(kind) THEN SeqObs(s) ELSE MapObs(s, HKeys)
+SameObs(kind, a, b) ==
+  /\ a.len = b.len /\ a.empty = b.empty /\ a.iter = b.iter
+  \* b = recorded; placeholders never show up in the printed output (what else is printed is C06's matter)
+  /\ IsSeqK(kind) \/ (a.get = b.get /\ a.has = b.has /\ b.owned = a.iter /\ \A x \in 1..Len(b.printed) : \E y \in 1..Len(a.printed) : a.printed[y] = b.printed[x])
+RECURSIVE HistSim(_, _, _, _)
+HistSim(kind, states, ops, j) ==
+  IF j > Len(ops) THEN 0
+  ELSE IF ops[j].panic THEN j
+  ELSE LET o == FixOp(ops[j])
+           nxt == UNION {{r.m : r \in {x \in StepOutcomes(kind, s, o) : x.ret = ops[j].ret /\ SameObs(kind, ObsOf(kind, x.m), ops[j].obs)}} : s \in states}
+       IN IF nxt = {} THEN j ELSE HistSim(kind, nxt, ops, j + 1)
+CheckHist(i) ==
+  LET e == Ev[i]
+      bad == HistSim(e.kind, {<<>>}, e.ops, 1)
+  IN IF bad = 0 THEN TRUE
+     ELSE Report(i, IF e.ops[bad].panic THEN "hist-panic" ELSE "hist-step",
+                 [kind |-> e.kind, step |-> bad, op |-> e.ops[bad].op, k |-> e.ops[bad].k, ret |-> e.ops[bad].ret]) /\ FALSE
+
 U1Note(i) == Ev[i].ev = "parse" /\ ParseDocument(Ev[i].text).res = "u1" => PrintT(ToJson([u1 |-> i]))
 
 CheckEvent(i) ==
@@ -376,6 +403,7 @@ CheckEvent(i) ==
     [] Ev[i].ev = "err" -> CheckErr(i)
     [] Ev[i].ev = "api" -> CheckApi(i)
     [] Ev[i].ev = "depth" -> CheckDepth(i)
+    [] Ev[i].ev = "hist" -> CheckHist(i)
     [] OTHER -> Report(i, "unknown-event", Ev[i].ev) /\ FALSE
 
 Init == lvl = 0 /\ idx = 0
